@@ -166,4 +166,4 @@ Org.has_part = HasPart(Org, "has_part")
 PERSON_CLASSES = {"Person": Person, "Employee": Employee, "Manager": Manager, "Volunteer": Volunteer,
                   "WorkingStudent": WorkingStudent}
 ORG_CLASSES = {"Org": Org, "Dept": Dept}
-ALL_CLASSES = {**PERSON_CLASSES, **ORG_CLASSES, "Chief": Chief}
+ALL_CLASSES = {**PERSON_CLASSES, **ORG_CLASSES, "Chief": Chief, "VOrg": VOrg, "VPerson": VPerson}
